@@ -27,7 +27,8 @@ def judge(stream, d):
     info = {'outcomes': {}, 'results': {}}
     run = feat.execute(d)
     for st in run.steps:
-        info['results'][st['result']] = info['results'].get(st['result'], 0) + 1
+        rk = 'get_triggers' if st['result'].startswith('triggers:') else st['result']
+        info['results'][rk] = info['results'].get(rk, 0) + 1
 
     def add(kind, what, details):
         sig = 'C19.' + what
@@ -42,16 +43,21 @@ def judge(stream, d):
     for what, details in feat.oracle_tags(d, run):
         add('monitor', what, details)
     if stream == 'diff':
+        # add_state_features: merged dynamic_methods vs the model's `customMethods` (compared in correspond())
+        info['dyn'] = feat.state_cls_methods(d)
         plain = dict(d, feats=[], probe=False)
         prun = feat.execute(plain)
         a, b = feat.plain_view(run), feat.plain_view(prun)
-        if a != b:
+        # every state of an Error machine is under the Error contract: the twin is compared only on machines
+        # without dead ends (the generator provides that; a shrunk case must not drift out of it)
+        in_scope = 'Error' not in d['feats'] or all(feat.has_out(d, n) for n in feat.state_names(d))
+        if a != b and in_scope:
             k = next((i for i, (x, y) in enumerate(zip(a, b)) if x != y), min(len(a), len(b)))
             add('monitor', 'feature-free-unchanged',
                 {'step': k, 'trigger': d['history'][k] if k < len(d['history']) else None,
                  'decorated': repr(a[k]) if k < len(a) else None, 'plain': repr(b[k]) if k < len(b) else None})
         info['nontrivial'] = any(st['result'] == 'true' and st['items'] for st in run.steps)
-        return fails, info, run, None
+        return fails, info, run, ('c19dyn', feat.enc_feats(d) + [len(info['dyn'][1])] + info['dyn'][1])
     orun = run if d['probe'] else feat.inject_ops(d, run)
     for what, details in feat.oracle_steps(d, orun):
         add('monitor', what, details)
@@ -74,7 +80,14 @@ def judge(stream, d):
     return fails, info, run, req
 
 
-def correspond(stream, d, run, ans):
+def correspond(stream, d, run, ans, info=None):
+    if stream == 'diff':
+        got = info['dyn'][0]
+        want = [int(x) for x in ans.split()]
+        if got != want:
+            return [Failure('correspondence', 'dynamic_methods_eq', {'stream': stream, 'desc': d},
+                            {'impl': got, 'model': want, 'undecorated': info['dyn'][1]})]
+        return []
     if stream == 'ops':
         model = feat.dec_ops_answer(ans, d, len(feat.trigger_steps(d, run)))
         diff = feat.compare_ops(d, run, model)
@@ -117,7 +130,7 @@ def run_cases(stream, descs):
         tagans = {}
         for (n, kind), a in zip(owners, answers):
             if kind == 'trace':
-                res[n][0] += correspond(stream, descs[n], res[n][2], a)
+                res[n][0] += correspond(stream, descs[n], res[n][2], a, res[n][1])
             else:
                 tagans.setdefault(n, []).append(a)
         for n, al in tagans.items():
@@ -180,7 +193,7 @@ class C19(runner.Check):
     theorems = ('TM.C19_tags', 'TM.C19_tags_mutable', 'TM.C19_tags_built', 'TM.C19_caller_lists_unchanged', 'TM.C19_error_iff',
                 'TM.C19_volatile_kept', 'TM.C19_flat_veto', 'TM.C19_retry_scoped', 'TM.C19_volatile_fresh', 'TM.C19_volatile_removed',
                 'TM.C19_volatile_history', 'TM.C19_retry_exact', 'TM.C19_retry_unlimited', 'TM.C19_per_model_frame', 'TM.C19_per_model',
-                'TM.C19_feature_free_unchanged', 'TM.C19_flat_trigger')
+                'TM.C19_feature_free_unchanged', 'TM.C19_flat_trigger', 'TM.C19_polls_pure', 'TM.C19_dynamic_methods_kept')
     rule = ('random decorated machine classes: every subset of {Tags, Error, Volatile, Retry} in random decorator order '
             '(Tags-before-Error excluded: TypeError) x {Machine, LockedMachine, HierarchicalMachine, '
             'LockedHierarchicalMachine} x 2-4 top states (hierarchical: 0-3 children each, optional initial child) x '
@@ -188,7 +201,9 @@ class C19(runner.Check):
             'callable or model method name) x auto_transitions/ignore_invalid_triggers/send_event x 1-3 models x '
             'histories of 3-20 steps with bursts of the same (reflexive) event, triggers during which an on_exit callback of the '
             'state being left raises (with/without on_exception handler), edits of the public tags lists (assign/append/'
-            'remove) between triggers, hierarchical: transitions declared inside a parent state dict; non-trivial = at least one completed '
+            'remove) between triggers, may_<event>()/may_trigger polls and get_triggers reads in between (more often on '
+            'Error machines), hierarchical: transitions declared inside a parent state dict; twin stream: final states, '
+            'on_final callbacks, model methods on_enter_/on_exit_/on_final_<state>, machine.on_<cb>_<state>(f); non-trivial = at least one completed '
             'entry and at least one feature effect (retry failure, Error raise, volatile object, tag); distinct = '
             'different description')
     trusted = ('hand-written model lean/Model/Features.lean tied to /repo by trace equality on every generated case',
@@ -218,6 +233,12 @@ class C19(runner.Check):
             "removes it, an exit aborted by a raising on_exit callback leaves every hook attribute as it was; on "
             "hierarchical machines only the first exit of a trigger is made to raise (a later one leaves the engine "
             "half-way, which is C04's subject)",
+            "may_ polls, get_triggers reads and callback registrations are queries: they must not run callbacks or move a "
+            "model (oracle query-not-pure); their answers are compared with the flat model (polls) and with the "
+            "undecorated twin; 'dead end' is computed from the declared transitions, never from get_triggers",
+            "the decorated-vs-plain twin covers the dynamic-method conventions (model methods on_enter_/on_exit_/"
+            "on_final_<state>, machine.on_<cb>_<state>(f)), final states and on_final callbacks on states without feature "
+            "arguments; on Error machines it is judged only when no state is a dead end",
             "edits of state.tags follow Python's aliasing: states that were handed one list object and were not declared "
             "accepted share it, so an in-place edit shows in all of them",
         ]
